@@ -773,3 +773,46 @@ func c16R7(c *Ctx) {
 	hit2, _ := reachFromE(rc.Blocks[0], 0, isWinStore, nil, contradicts([]assumption{A(tun, true)}))
 	c.check(hit == nil && hit2 == nil, "recvConfig/plain-default-newline", c.pos(rc.Pos()), "the Windows default newline is not used for a non-Windows server or through the tunnel", "the Windows default newline can be used for a non-Windows server / through the tunnel")
 }
+
+// evalBoolUnder: the value of boolean v when the assumptions hold, if the assumptions determine it.
+// Handles constants, negation, the assumed predicates themselves, and phis (over the edges that stay feasible).
+func evalBoolUnder(v ssa.Value, as []assumption, reach map[*ssa.BasicBlock]bool, depth int) (val, known bool) {
+	if depth > 6 {
+		return false, false
+	}
+	if b, ok := constBool(v); ok {
+		return b, true
+	}
+	for _, a := range as {
+		if a.cmp == nil && a.pred != nil && a.pred(v) {
+			return a.val, true
+		}
+	}
+	switch x := v.(type) {
+	case *ssa.UnOp:
+		if x.Op == token.NOT {
+			b, ok := evalBoolUnder(x.X, as, reach, depth+1)
+			return !b, ok
+		}
+	case *ssa.Phi:
+		no := contradicts(as)
+		first := true
+		for i, e := range x.Edges {
+			pred := x.Block().Preds[i]
+			if !reach[pred] || no(pred, x.Block()) {
+				continue
+			}
+			b, ok := evalBoolUnder(e, as, reach, depth+1)
+			if !ok {
+				return false, false
+			}
+			if first {
+				val, first = b, false
+			} else if b != val {
+				return false, false
+			}
+		}
+		return val, !first
+	}
+	return false, false
+}
